@@ -612,7 +612,6 @@ pub struct Env {
     pub vars: Vec<(String, Ty)>,
     /// user functions defined earlier in the case: name, parameter types, result type
     pub fns: Vec<(String, Vec<Ty>, Ty)>,
-    pub structs: Vec<(String, Vec<(String, Ty)>)>,
     pub counter: usize,
 }
 
@@ -641,7 +640,6 @@ impl Env {
                 ("dbl".into(), Ty::FnS),
             ],
             fns: vec![],
-            structs: vec![],
             counter: 0,
         }
     }
